@@ -51,4 +51,21 @@ func observeNonFinite(t *testing.T) {
 		b, _ := json.Marshal(o)
 		f.Write(append(b, '\n'))
 	}
+	// A cap that is not a float64: 1.7 (= 1.6999999999999999556 as float64) x 10 ns
+	// rounds up to 17.0, so the clamp yields 17 ns, 4.4e-16 ns above the exact
+	// product. The specification reads the factors as exact rationals; recorded, not judged.
+	cfg := sync.Config{ReferenceClockImpact: 1.7, PeerClockImpact: 3.0, PeerClockCutoff: 8,
+		SyncTimeout: 2 * time.Millisecond, SyncInterval: 10 * time.Millisecond}
+	refs := []*scriptedClock{{steps: []step{{kind: "ok", val: time.Duration(off), delay: time.Microsecond}}}}
+	res := runOnce(t, cfg, 1, time.Millisecond, 1, refs, nil)
+	o := obsRec{Ri: "1.7", Pi: "3", Refused: res.panicked, Offset: off, Corr: []int64{},
+		Note: "cap 1.7 x 10 ns is not exactly representable: float64 product rounds to 17.0; exact product of the " +
+			"float64 factor is 16.99999999999999955591 ns (sub-ulp excess, observation only)"}
+	for _, ob := range res.rec.rounds {
+		for _, d := range ob.dos {
+			o.Corr = append(o.Corr, int64(d))
+		}
+	}
+	b, _ := json.Marshal(o)
+	f.Write(append(b, '\n'))
 }
